@@ -11,8 +11,11 @@ import (
 
 var aliasIndexPool = []string{"ia", "ib", "ic-2024.01"}
 
-func genAliasOp(t *rapid.T, names []string) storeOp {
-	k := rapid.IntRange(0, 99).Draw(t, "aliasOp")
+func genAliasOp(t *rapid.T, names []string, early bool) storeOp {
+	k := pct(t, "aliasOp")
+	if early {
+		k = rapid.SampledFrom([]int{0, 20, 50}).Draw(t, "earlyOp") // index.create | alias.put | alias.add
+	}
 	idx := rapid.SampledFrom(aliasIndexPool).Draw(t, "index")
 	switch {
 	case k < 15:
@@ -135,7 +138,7 @@ func (s *aliasStore) verify(d *storeDriver) error {
 			got := setOf(out[idx].Aliases)
 			want := setOf(s.rel[t][idx])
 			if canon(got) != canon(want) {
-				return d.violation("tenant %d: index %s has aliases %.400s, last written %.400s", t, idx, canon(got), canon(want))
+				return d.violation("tenant %d: index %s has aliases %.400s, last written %.400s", t, idx, brief(got), brief(want))
 			}
 		}
 		// reverse lookup of every alias name
@@ -176,7 +179,7 @@ func (s *aliasStore) verify(d *storeDriver) error {
 				}
 				sort.Strings(got)
 				if canon(got) != canon(setOf(s.rel[t][idx])) {
-					return d.violation("tenant %d: alias %s → index %s with aliases %.300s, last written %.300s", t, short(al), idx, canon(got), canon(setOf(s.rel[t][idx])))
+					return d.violation("tenant %d: alias %s → index %s with aliases %.300s, last written %.300s", t, short(al), idx, brief(got), brief(setOf(s.rel[t][idx])))
 				}
 			}
 		}
@@ -205,7 +208,7 @@ func (s *aliasStore) verify(d *storeDriver) error {
 			}
 			sort.Strings(got)
 			if canon(got) != canon(setOf(s.rel[t][idx])) {
-				return d.violation("tenant %d: alias list shows index %s with %.300s, last written %.300s", t, idx, canon(got), canon(setOf(s.rel[t][idx])))
+				return d.violation("tenant %d: alias list shows index %s with %.300s, last written %.300s", t, idx, brief(got), brief(setOf(s.rel[t][idx])))
 			}
 		}
 		for idx, body := range all {
